@@ -30,6 +30,21 @@ def specs():
     S.append(["list", [["Term", "a"], ["Term", "b"]]])
     S.append(["list", []])
     S.append(["Term", "g", [["Term", "f", [["Term", "a"]]], ["list", [["Constant", 1], ["Constant", 2]]]]])
+    # numbers of different type but equal value, nested (Python's 1 == 1.0 must not leak into term identity)
+    for v in (1, 1.0, 2, 2.0, 0, 0.0, -1, -1.0):
+        S.append(["Term", "f", [["Constant", v]]])
+    S.append(["list", [["Constant", 1], ["Constant", 2.0]]])
+    S.append(["list", [["Constant", 1.0], ["Constant", 2]]])
+    S.append(["list", [["Constant", 1], ["Constant", 2]]])
+    for t in ("f(1.0)", "f(1)", "[1,2.0]", "[1.0,2]", "g(f(1),[1.0])", "g(f(1.0),[1])", "p(0)", "p(0.0)", "p(-0.0)"):
+        S.append(["parse", t])
+    # the two spellings of negation, nested (their hashes differ although they compare equal at top level)
+    S.append(["Term", "h", [["Not", "\\+", ["Term", "x"]]]])
+    S.append(["Term", "h", [["Not", "not", ["Term", "x"]]]])
+    S.append(["Not", "\\+", ["Term", "f", [["Term", "a"]]]])
+    S.append(["Not", "not", ["Term", "f", [["Term", "a"]]]])
+    S.append(["list", [["Not", "\\+", ["Term", "a"]], ["Term", "b"]]])
+    S.append(["list", [["Not", "not", ["Term", "a"]], ["Term", "b"]]])
     return S
 
 
@@ -56,6 +71,11 @@ def cause(reprs):
     n = {re.sub(r"\\\+\((.*)\)$", r"\\+\1", r.replace("'", "").replace("not ", "\\+")) for r in rs}
     if len(n) == 1:
         return "negation-spelling"
+    n = {r.replace("'", "").replace("not(", "\\+(").replace("not ", "\\+") for r in rs}
+    if len(n) == 1:
+        return "negation-spelling"
+    if len({r.replace("-0.0", "0.0") for r in rs}) == 1:
+        return "negative-zero"
     return "other"
 
 
@@ -79,7 +99,7 @@ def run(ctx):
             raise tlc.MachineryError("eq_matrix failed: %s" % r)
         for o in r["results"]:
             info[o["id"]] = o
-            send.append({"id": o["id"], "kind": "eq", "eq": o["eq"], "hash": o["hash"], "unif": o["unif"], "ground": o["ground"]})
+            send.append({"id": o["id"], "kind": "eq", "eq": o["eq"], "eq0": o["eq0"], "hash": o["hash"], "unif": o["unif"], "ground": o["ground"]})
     J = tlc.judge_batch("JudgeTerms", send, nproc=ctx.nproc, tag="c18")
     seen_sig = set()
     for c in send:
@@ -114,7 +134,7 @@ def replay(ctx, path):
     sp = d["case"]["specs"]
     o = pl.run_local("eq_matrix", groups=[{"id": 0, "specs": sp}])["results"][0]
     print(o)
-    j = tlc.judge_batch("JudgeTerms", [{"id": 0, "kind": "eq", "eq": o["eq"], "hash": o["hash"], "unif": o["unif"],
+    j = tlc.judge_batch("JudgeTerms", [{"id": 0, "kind": "eq", "eq": o["eq"], "eq0": o["eq0"], "hash": o["hash"], "unif": o["unif"],
                                         "ground": o["ground"]}], nproc=1)[0]
     print(j)
     ctx.evaluations = 1
